@@ -67,7 +67,6 @@ pub fn set_forced(_list: &Value) {}
 pub fn layout(bytes: &[u8]) -> Value {
     json!({"len": bytes.len(), "hex": hex(bytes)})
 }
-pub fn note(_v: Value) {}
 pub fn dump() -> Value {
     Value::Null
 }
